@@ -92,6 +92,17 @@ CLAIMS = {
              "TLC invariant before the code is consulted). Random corpus; top-level required items and schema-side faults are "
              "not among the listed kinds.",
         technique="TLA+ loader spec with error positions, invariant ErrorPositionIsCulprit checked by TLC on fault-injected scenarios; replayed on the code"),
+    "C14": dict(
+        text="For accepted random texts of the schema family and override lists of 1..4 specifiers, the harness edits the text "
+             "as the statement says (first matching child section in file order by name or type, lines of the key dropped, "
+             "values appended in the given order, no $-expansion) and TLC checks on the loader specification with option bags, "
+             "by self-composition, that text+overrides and the edited text have the same outcome (TwinSameOutcome), that "
+             "overrides for missing sections and malformed specifiers are refused; both variants are executed on the real code "
+             "and compared with each other and with the specification.",
+        design="3 (C14)",
+        note="Trusted: TLC, the EditText implementation in props/c14.py (written from the statement, cross-checked against the "
+             "specification's option bags by the TLC invariant). Path components are basic-key shaped.",
+        technique="TLA+ loader spec with option bags, self-composition (override vs edited text) checked by TLC; replayed on the code"),
 }
 
 NOT_YET = "check not built yet (construction order in DESIGN.md section 8)"
